@@ -491,6 +491,8 @@ def main(argv):
         ulines = []
     ulines = ulines + klines
     chk.log("%d graph cases, %d unit cases, %d committer programs, %d cases where run() races an external release" % (len(lines), len(ulines) - len(klines), len(klines), len(xlines)))
+    if os.environ.get("C05_DUMP"):
+        open(os.environ["C05_DUMP"], "w").write("\n".join(lines + ulines + xlines) + "\n")
     impl_out = chk.run_cases(impl, lines + ulines, timeout=900) if impl else {}
     if impl and xlines:
         impl_out.update(chk.run_cases(impl, xlines, timeout=900, jobs=len(xlines)))
